@@ -186,6 +186,22 @@ Definition spec_c06_retry (i : rinput) (o : robs) : list Z :=
       | None => []
       end).
 
+(* clause 7: what is on record after the retries - for every partition the last snapshot broadcast - is what the
+   attempts' assignments filed, request by request (an exact repeat of a snapshot changes nothing; a request that was
+   not filed, or filed differently, does) *)
+Definition last_snap (p : Z) (l : list bcast) : option (list (Z * Z)) :=
+  fold_left (fun acc m => if fst m =? p then Some (snd m) else acc) l None.
+Definition snap_eqb (a b : option (list (Z * Z))) : bool :=
+  match a, b with
+  | None, None => true
+  | Some x, Some y => list_eqb zz_eqb x y
+  | _, _ => false
+  end.
+Definition same_record (a b : list bcast) : bool :=
+  forallb (fun p => snap_eqb (last_snap p a) (last_snap p b)) (map fst (a ++ b)).
+Definition spec_c06_retry_record (i : rinput) (o : robs) : list Z :=
+  if same_record (ro_sent (model_robs i)) (ro_sent o) then [] else [7].
+
 Definition dec_attempt (t : tree) : option attempt :=
   match t with
   | T [com; wms; af] => com <- dec_cres com ;; wms <- getList dec_wres wms ;; af <- getB af ;;
@@ -232,7 +248,7 @@ Definition judge_retry (ti tobs : tree) : tree :=
   | Some i, Some o =>
       if negb (retry_ends i) then malformed else
       let m := model_robs i in
-      verdict (robs_diffs m o) (map (fun c => clause 6 c []) (spec_c06_retry i o)) (enc_robs m)
+      verdict (robs_diffs m o) (map (fun c => clause 6 c []) (spec_c06_retry i o ++ spec_c06_retry_record i o)) (enc_robs m)
               ([20] ++ (if Nat.ltb 1 (ro_calls m) then [21] else []) ++ (if Nat.ltb (ro_calls m) (length (r_atts i)) then [22] else []))
   | _, _ => malformed
   end.
